@@ -69,7 +69,7 @@ def soc_name(std, bdw, ic, cdw, paging, ordering, aw, base, menu):
 def configs(tier):
     global VERBOSE
     VERBOSE = tier != "thorough"
-    return enumerate_configs(FULL) if tier == "thorough" else enumerate_quick()
+    return (enumerate_configs(FULL) + edge_configs(True)) if tier == "thorough" else (enumerate_quick() + edge_configs(False))
 
 
 def enumerate_quick():
@@ -80,6 +80,17 @@ def enumerate_quick():
         for shift, ordering in ((0, "big"), (2, "little"), (4, "big")):
             menu = menus[(p + shift) % len(menus)]
             combo = (std, bdw, ic, cdw, 0x800, ordering, 14, QUICK_BASE[menu], menu)
+            out.append((soc_name(*combo), "soc") + combo)
+    return out
+
+
+def edge_configs(thorough):
+    """the CSR location boundary menus on a few platforms (not part of the product: they only vary what decides n_locs)"""
+    out = []
+    for menu in S.EDGE_MENUS:
+        for (std, bdw, ic, cdw, paging, aw, base) in [("wishbone", 32, "shared", 32, 0x800, 14, 0x82000000), ("axi-lite", 64, "crossbar", 8, 0x800, 14, 0x0)] + \
+                ([("wishbone", 32, "shared", 8, 0x400, 15, 0xF0000000), ("axi", 32, "shared", 32, 0x1000, 14, 0x0)] if thorough else []):
+            combo = (std, bdw, ic, cdw, paging, "big", aw, base, menu)
             out.append((soc_name(*combo), "soc") + combo)
     return out
 
@@ -976,6 +987,10 @@ def run_soc(cfg, seed):
     name = cfg[0]
     try:
         b, v, static, tests = prepare(cfg)
+    except S.Rejected:
+        # a configuration soc.py has to refuse (bank pinned past the CSR location range) and did refuse
+        return dict(cfg=name, cfg_args=list(cfg[1:]), exhaustive=True, evaluations=1, distinct=1, violations=[], sample=None,
+                    cover=dict(rejected_as_required=1))
     except ExportFailure as e:
         return dict(cfg=name, cfg_args=list(cfg[1:]), exhaustive=False, evaluations=0, distinct=0,
                     violations=[dict(rule="export.fail", msg=str(e)[:600], detail=dict(static=True), trace=None)], sample=None)
@@ -1283,7 +1298,7 @@ def run_config(cfg, seed, tier):
 
 
 def _cfg_from_name(name):
-    for c in enumerate_configs(FULL):
+    for c in enumerate_configs(FULL) + edge_configs(True):
         if c[0] == name:
             return c
     raise KeyError(name)
